@@ -4,6 +4,8 @@ import Rtsp.Proofs.Hdr.Range
 import Rtsp.Proofs.Hdr.KeyMgmt
 import Rtsp.Proofs.Hdr.RangeNptNear
 import Rtsp.Proofs.Hdr.MapOrder
+import Rtsp.Proofs.Hdr.NoUnm
+import Rtsp.Proofs.Hdr.MikeySound
 /-
 C09 — RTSP header codecs round-trip and parse deterministically.
 
@@ -99,6 +101,19 @@ theorem parse_deterministic (v w : List Str) (h : v = w) :
     Authorization.unmarshal v = Authorization.unmarshal w ∧ KeyMgmt.unmarshal v = KeyMgmt.unmarshal w := by
   subst h; exact ⟨rfl, rfl, rfl, rfl, rfl, rfl, rfl, rfl⟩
 
+/-- **The model decides every header value of seven headers.**  The third outcome `unm` (input
+outside the domain on which the model claims to reproduce the Go standard library) is unreachable
+for Transport, Transports, Session, RTP-Info, WWW-Authenticate, Authorization and KeyMgmt: every
+list of strings yields a value or a failure class.  Only Range can answer `unm`, and only through
+NPT seconds that are not plain decimals in the agreed range (`parseFloatNs`). -/
+theorem model_total (v : List Str) :
+    Hdr.Transport.unmarshal v ≠ .unm ∧ Hdr.Transports.unmarshal v ≠ .unm ∧ Hdr.Session.unmarshal v ≠ .unm ∧
+    Hdr.RtpInfo.unmarshal v ≠ .unm ∧ Hdr.Authenticate.unmarshal v ≠ .unm ∧ Hdr.Authorization.unmarshal v ≠ .unm ∧
+    Hdr.KeyMgmt.unmarshal v ≠ .unm :=
+  ⟨Hdr.Transport.unmarshal_ne_unm v, Hdr.Transports.unmarshal_ne_unm v, Hdr.Session.unmarshal_ne_unm v,
+   Hdr.RtpInfo.unmarshal_ne_unm v, Hdr.Authenticate.unmarshal_ne_unm v, Hdr.Authorization.unmarshal_ne_unm v,
+   Hdr.KeyMgmt.unmarshal_ne_unm v⟩
+
 /-! ## round trips -/
 
 theorem Transport.unmarshal_marshal (h : Transport) (wf : h.WellFormed) :
@@ -154,7 +169,30 @@ example : Hdr.Authorization.unmarshal [(Authorization.marshal { method := .basic
 theorem Mikey.unmarshal_marshal (m : Mikey.Message) (wf : m.WF) :
     Mikey.Message.unmarshal m.marshal = some m := Mikey.Message.unmarshal_marshal m wf
 
+/-- the other direction: whatever `Message.Unmarshal` accepts, from ANY byte string, is a well-formed
+message – so parse → print → parse is the identity (only trailing padding is not reproduced) -/
+theorem Mikey.unmarshal_wellformed (buf : Mikey.Bytes) (m : Mikey.Message) (h : Mikey.Message.unmarshal buf = some m) :
+    m.WF ∧ Mikey.Message.unmarshal m.marshal = some m :=
+  ⟨Mikey.Message.unmarshal_wf buf m h, Mikey.Message.unmarshal_marshal_unmarshal buf m h⟩
+
 theorem KeyMgmt.unmarshal_marshal (h : KeyMgmt) (wf : h.WellFormed) :
     Hdr.KeyMgmt.unmarshal [h.marshal] = .ok h := Hdr.KeyMgmt.unmarshal_marshal h wf
+
+/-! ## corollary: Marshal is injective on well-formed values (distinct values, distinct texts) -/
+
+theorem Transport.marshal_injective (a b : Transport) (wa : a.WellFormed) (wb : b.WellFormed) (h : a.marshal = b.marshal) : a = b := by
+  have h1 := Transport.unmarshal_marshal a wa
+  rw [h, Transport.unmarshal_marshal b wb] at h1
+  cases h1; rfl
+
+theorem Range.marshal_injective (a b : Range) (wa : a.WellFormed) (wb : b.WellFormed) (h : a.marshal = b.marshal) : a = b := by
+  have h1 := Range.unmarshal_marshal a wa
+  rw [h, Range.unmarshal_marshal b wb] at h1
+  cases h1; rfl
+
+theorem Mikey.marshal_injective (a b : Mikey.Message) (wa : a.WF) (wb : b.WF) (h : a.marshal = b.marshal) : a = b := by
+  have h1 := Mikey.unmarshal_marshal a wa
+  rw [h, Mikey.unmarshal_marshal b wb] at h1
+  cases h1; rfl
 
 end Rtsp.C09
